@@ -391,6 +391,15 @@ func (ex *Exec) checkFrame(ct *Contract, tags []string, fr *Frame, ret *ssa.Retu
 		if strings.HasPrefix(name, "@") || mods[name] {
 			continue
 		}
+		if strings.HasPrefix(name, "ghost:") {
+			gn := strings.TrimPrefix(name, "ghost:")
+			if i := strings.Index(gn, "."); i >= 0 {
+				gn = gn[:i]
+			}
+			if g := ex.P.cs.Ghosts[gn]; g != nil && g.History {
+				continue // a history ghost is specification state: no function is framed against it
+			}
+		}
 		sort := compSorts[name]
 		final := ex.get(st, name, sort)
 		initial := ex.initialComp(name, sort)
